@@ -89,6 +89,50 @@ def per_row_filtering_in_index_getters(ctx):
                                  for a_ in ancestors(t))
                 if not ((isinstance(st, ast.If) and in_subtree(t, st.test)) or in_comp_if):
                     bad.append(f"`{norm(t, 50)}` is not used as the condition for adding the key/value")
+        # every condition that consults the measurement's position set asks `does this entry have a position in it`:
+        # membership, (non-)empty intersection, disjointness -- never containment or equality of whole sets
+        tests_ = []
+        for n in walk_local(f.node):
+            if isinstance(n, (ast.If, ast.IfExp, ast.While)):
+                tests_.append(n.test)
+            elif isinstance(n, ast.comprehension):
+                tests_.extend(n.ifs)
+        OKM = ("intersection", "isdisjoint", "__contains__", "__and__", "__rand__")
+        BADM = ("issuperset", "issubset", "__eq__", "__ne__", "__le__", "__ge__", "__lt__", "__gt__", "difference",
+                "symmetric_difference", "union")
+
+        def _use_ok(x: ast.AST, top: ast.AST) -> Optional[str]:
+            p_ = getattr(x, "_parent", None)
+            if p_ is None or x is top:
+                return None
+            if isinstance(p_, ast.Attribute) and p_.value is x:
+                if p_.attr in BADM:
+                    return f"`.{p_.attr}(...)`"
+                return None
+            if isinstance(p_, ast.Call) and x in p_.args:
+                if isinstance(p_.func, ast.Attribute) and p_.func.attr in BADM:
+                    return f"`.{p_.func.attr}({norm(x)})`"
+                if isinstance(p_.func, ast.Name) and p_.func.id in ("set", "frozenset", "list", "tuple", "sorted"):
+                    return _use_ok(p_, top)
+                return None
+            if isinstance(p_, ast.BinOp):
+                if isinstance(p_.op, ast.BitAnd):
+                    return None
+                return f"`{norm(p_, 40)}`"
+            if isinstance(p_, ast.Compare):
+                ops = p_.ops
+                if all(isinstance(o_, (ast.In, ast.NotIn, ast.Is, ast.IsNot)) for o_ in ops):
+                    return None
+                return f"`{norm(p_, 40)}`"
+            return None
+        for t_ in tests_:
+            for x in ast.walk(t_):
+                if isinstance(x, ast.Name) and x.id in msets:
+                    why_ = _use_ok(x, t_)
+                    if why_:
+                        bad.append(f"condition `{norm(t_, 60)}` compares the measurement's position set as a whole ({why_}) instead of "
+                                   f"asking whether the entry has a position in it: entries shared with another measurement, or partly "
+                                   f"outside it, are mis-reported")
         yield Ob("C07.R3", ["C07", "C10"], f"{f.qual} | measurement filtering", not bad,
                  "; ".join(bad[:2]) if bad else
                  (f"{n_sites} per-element filter(s)" if name in ROW_VALUED else f"{n_sites} container-level test(s)"),
@@ -195,6 +239,58 @@ def getter_order_agreement(ctx):
                 bad.append(f"index branch returns {sorted(shapes_i)}, documented {doc}")
             if shapes_s != {doc}:
                 bad.append(f"scan branch returns {sorted(shapes_s)}, documented {doc}")
+        # the scan branch's result depends on an iteration over storage (def-use closure of the returned names)
+        def _mentions_storage(e: ast.AST) -> bool:
+            return any(isinstance(x, ast.Attribute) and x.attr == "_storage" for x in ast.walk(e))
+
+        def _fed_by_storage(start: Set[str]) -> bool:
+            seen_: Set[str] = set()
+            work = list(start)
+            while work:
+                nm = work.pop()
+                if nm in seen_:
+                    continue
+                seen_.add(nm)
+                for st in walk_local(f.node):
+                    writes = False
+                    if isinstance(st, (ast.Assign, ast.AugAssign, ast.AnnAssign)):
+                        for t0 in (st.targets if isinstance(st, ast.Assign) else [st.target]):
+                            for y in ast.walk(t0):
+                                if isinstance(y, ast.Name) and y.id == nm:
+                                    writes = True
+                    elif isinstance(st, ast.Expr) and isinstance(st.value, ast.Call) and isinstance(st.value.func, ast.Attribute):
+                        b_ = st.value.func.value
+                        while isinstance(b_, (ast.Call, ast.Attribute, ast.Subscript)):
+                            b_ = b_.func if isinstance(b_, ast.Call) else b_.value
+                        writes = isinstance(b_, ast.Name) and b_.id == nm
+                    elif isinstance(st, ast.For):
+                        writes = any(isinstance(y, ast.Name) and y.id == nm for y in ast.walk(st.target))
+                        if writes and _mentions_storage(st.iter):
+                            return True
+                        if writes:
+                            work.extend(y.id for y in ast.walk(st.iter) if isinstance(y, ast.Name))
+                        continue
+                    if not writes:
+                        continue
+                    val = getattr(st, "value", None)
+                    if val is not None:
+                        for y in ast.walk(val):
+                            if isinstance(y, ast.comprehension) and _mentions_storage(y.iter):
+                                return True
+                        work.extend(y.id for y in ast.walk(val) if isinstance(y, ast.Name))
+                    for a_ in ancestors(st):
+                        if isinstance(a_, ast.For) and in_subtree(a_, f.node):
+                            if _mentions_storage(a_.iter):
+                                return True
+                            work.extend(y.id for y in ast.walk(a_.iter) if isinstance(y, ast.Name))
+            return False
+        for r in scan_rets:
+            if _mentions_storage(r.value):
+                continue
+            names_ = {x.id for x in ast.walk(r.value) if isinstance(x, ast.Name) and isinstance(x.ctx, ast.Load)}
+            names_ -= {"sorted", "list", "set", "dict", "tuple", "len"}
+            if names_ and not _fed_by_storage(names_):
+                bad.append(f"scan branch returns `{norm(r.value, 40)}`, which no iteration over storage fills")
         yield Ob("C07.R4", ["C07"], f"{f.qual} | order of both branches", not bad,
                  "; ".join(bad) if bad else f"both branches: {doc}", f.loc())
     # index side of the insertion-ordered getters
@@ -220,6 +316,12 @@ def getter_order_agreement(ctx):
                                 helper_args[id(r2)] = (hp[0], n.value.args[0])
     if not rets:
         bad.append("no list result")
+    # every other return of the getter is the empty answer
+    for n in walk_local(f.node):
+        if isinstance(n, ast.Return) and n.value is not None and n not in rets and not helper_args \
+                and not (isinstance(n.value, ast.List) and not n.value.elts) and norm(n.value) != "list()":
+            bad.append(f"`{norm(n, 60)}` is neither the empty answer nor a list of (timestamp, position) pairs sorted by "
+                       f"position (a mapping keyed by timestamp or position loses points that share it)")
     for r in rets:
         lc = r.value
         src = lc.generators[0].iter
